@@ -104,6 +104,24 @@ pub fn generate(r: &mut Rng, tier: Tier) -> Scenario {
     };
     let k = if tier == Tier::Quick { 2 } else { 3 };
     let entropy: Vec<u64> = (0..k).map(|_| r.next_u64() >> 11).collect();
+    if t2 && r.chance(1, 5) {
+        // file-system shapes in place of an included file: the include must fail cleanly
+        let targets: Vec<String> = world.files.keys().filter(|p| **p != world.base).cloned().collect();
+        if !targets.is_empty() {
+            let p = r.pick(&targets).clone();
+            match r.below(3) {
+                0 => {
+                    world.special.insert(p, world::Special::Dir);
+                }
+                1 => {
+                    world.special.insert(p, world::Special::Symlink("nowhere.s".into()));
+                }
+                _ => {
+                    world.binary.insert(p, "2020206c692061302c20310aff".into()); // "   li a0, 1\n" + 0xFF
+                }
+            }
+        }
+    }
     let t2spec = if t2 {
         let mut plan = vec![];
         if r.chance(1, 3) && n_imports > 1 {
@@ -605,7 +623,7 @@ fn check_t2(scn: &Scenario, stats: &mut Stats) -> Vec<Violation> {
                     if !cyclic {
                         *opens += 1;
                         let planned = fail_open.contains(opens);
-                        let exists = target.as_ref().is_some_and(|t| world.files.contains_key(t) && !world.special.contains_key(t));
+                        let exists = target.as_ref().is_some_and(|t| world.files.contains_key(t) && !world.special.contains_key(t) && !world.binary.contains_key(t));
                         ok = !planned && exists;
                     }
                     oks.push(ok);
